@@ -56,4 +56,10 @@ CHECKS = [
              "is compared with the reference (exact HTTP_* mapping, scheme/SCRIPT_NAME/PATH_INFO/REMOTE_ADDR only from trusted peers, PROXY address on "
              "every request, refusals without application call).",
      "note": "reference model written from the documented settings semantics; header_map=dangerous only checked for HTTP_* mapping"},
+    {"id": "C19", "engine": "W",
+     "technique": "property-based testing (Hypothesis): generated hostile/conforming requests x application programs x log formats; records from the real access logger checked against the wire",
+     "text": "Requests with hostile targets / header values / Basic credentials x application programs (all body modes, failures) x access_log_format "
+             "atoms x 4 worker classes x send faults: records captured from gunicorn.access are counted against application calls, their status and "
+             "byte atoms compared with what an independent response reader decoded from the client's bytes, and searched for LF.",
+     "note": "records captured by a logging.Handler on the real Logger (not via a file); CR is tolerated; byte-count verdict only for well-behaved, non-failing calls"},
 ]
